@@ -112,8 +112,8 @@ def plan_c04(pid, rng, tier):
     return plan
 
 
-def plan_c05(pid, rng, tier):
-    n = rng.randint(3, 6 if tier == "quick" else 10)
+def plan_c05(pid, rng, tier, maxn=None):
+    n = rng.randint(3, maxn or (6 if tier == "quick" else 10))
     fam = "fast" if tier == "quick" or rng.random() < 0.7 else rng.choice(["local", "lan"])
     f = FAMILIES[fam]
     names = ["n%d" % (i + 1) for i in range(n)]
@@ -160,7 +160,9 @@ def plan_c05(pid, rng, tier):
     return plan
 
 
-def make(prop, tier, seed, count):
+def make(prop, tier, seed, count, maxn=None):
     rng = random.Random("%s-%s-%d" % (prop, tier, seed))
+    if prop == "C05" and maxn:
+        return [plan_c05(i + 1, rng, tier, maxn) for i in range(count)]
     f = {"C03": plan_c03, "C04": plan_c04, "C05": plan_c05}[prop]
     return [f(i + 1, rng, tier) for i in range(count)]
